@@ -92,7 +92,7 @@ impl From<&RunCfg> for CfgSer {
 }
 impl From<&CfgSer> for RunCfg {
     fn from(c: &CfgSer) -> Self {
-        RunCfg { guarded: c.guarded.iter().cloned().collect(), enter: c.enter.clone(), thorough: c.thorough }
+        RunCfg { guarded: c.guarded.iter().cloned().collect(), enter: c.enter.clone(), thorough: c.thorough, run: 0 }
     }
 }
 
@@ -288,7 +288,7 @@ impl Agg {
 pub fn cfg_for_run(i: u64, known_hazards: &[String], thorough: bool) -> RunCfg {
     let guarded: BTreeSet<String> = known_hazards.iter().cloned().collect();
     let enter = if !known_hazards.is_empty() && i % 8 == 7 { Some(known_hazards[((i / 8) as usize) % known_hazards.len()].clone()) } else { None };
-    RunCfg { guarded, enter, thorough }
+    RunCfg { guarded, enter, thorough, run: i }
 }
 
 fn worker(prop: &str, seed: u64, start: u64, step: u64, end: u64, findings: &[Finding], known_hazards: &[String], thorough: bool) -> Agg {
